@@ -96,9 +96,24 @@ let rec value s : value =
     let items = List.init n (fun _ -> value s) in
     let tail = value s in
     List.fold_right (fun h t -> VPair (h, t)) items tail
-  | "A" -> let n = num s in VArr (List.init n (fun _ -> value s))
+  | "A" | "a" -> let n = num s in VArr (List.init n (fun _ -> value s))
   | "H" -> let n = num s in VHash (List.init n (fun _ -> let k = value s in let v = value s in (k, v)))
   | k -> failwith ("bad value tag " ^ k)
+
+(* the same encoding as a decorated value (Model/PrinterPretty.v): tag A = an array that carries its environment,
+   tag a = one that does not *)
+let rec pvalue s : pv =
+  let tag = s.t.(s.i) in
+  match tag with
+  | "L" ->
+    ignore (next s);
+    let n = num s in
+    let items = List.init n (fun _ -> pvalue s) in
+    let tail = pvalue s in
+    List.fold_right (fun h t -> PPair (h, t)) items tail
+  | "A" | "a" -> ignore (next s); let n = num s in PArr (tag = "A", List.init n (fun _ -> pvalue s))
+  | "H" -> ignore (next s); let n = num s in PHash (List.init n (fun _ -> let k = value s in let v = pvalue s in (k, v)))
+  | _ -> PLeaf (value s)
 
 (* ---- canonical forms (the format of harness canonSexp) ---- *)
 let enc_runes tag (l : z list) =
@@ -275,13 +290,16 @@ let () =
              (Digest.to_hex (Digest.string (Buffer.contents b)), "-")
            | "qs" -> (items_str (quote_str is_print (str_items s)), "-")
            | "orc" -> ("ok", "-")
-           | "val" | "scr" ->
+           | "val" | "scr" | "pty" | "pts" ->
              let j = next s in
              let cuts = (match next s with "-" -> [] | c -> List.map (fun x -> nat_of_int (int_of_string x)) (String.split_on_char ',' c)) in
-             if fields.(0) = "scr" then ignore (str_runes s);
+             if fields.(0) = "scr" || fields.(0) = "pts" then ignore (str_runes s);
              float_tab := []; bad_tok := false;
-             let v = value s in
-             let text = print is_print v in
+             let pretty = (fields.(0) = "pty" || fields.(0) = "pts") in
+             (* pty / pts: the value printed under env.Pretty = true; the arrays carry their environment flag *)
+             let p = if pretty then pvalue s else PLeaf VNil in
+             let v = if pretty then erase p else value s in
+             let text = if pretty then pprint is_print true p else print is_print v in
              let (st, ex) = read text in
              let r = String.concat " | " (status_str st :: List.map canon_sexp ex) in
              let ev =
@@ -289,11 +307,12 @@ let () =
                (match st, ex with
                 | StDone, [e] -> (match eval_json_like pf_oracle e with Some jv -> canon_j jv | None -> "ERROR")
                 | _ -> "ERROR") in
-             let w = if j = "1" then items_str (save_text is_print v) else "-" in
+             let w = if j <> "1" then "-" else if pretty then items_str (psave_text is_print true p) else items_str (save_text is_print v) in
              let (st2, ex2) = read_repl text in
              let rp = String.concat " | " (status_str st2 :: List.map canon_sexp ex2) in
              let (st3, ex3) = read_pieces cuts text in
              let pc = String.concat " | " (status_str st3 :: List.map canon_sexp ex3) in
+             if pretty && not (pwf p) then bad_tok := true;
              let m = "P=" ^ items_str text ^ " ;; R=" ^ r ^ " ;; PC=" ^ pc ^ " ;; RP=" ^ rp ^ " ;; EV=" ^ ev ^ " ;; W=" ^ w ^ (if !bad_tok then " ;; BADTOK" else "") in
              let cv = canon_value v in
              let spec = "R=" ^ (if has_hash v then "-" else "D | " ^ cv) ^ " ;; E=" ^ (if j = "1" then cv else "-") in
